@@ -114,6 +114,10 @@ func GenOp(t *rapid.T, k Kind, maxOrd uint64, delPct int) Op {
 		o.Val = Bin(GenNumber(t, k.VType))
 		if k.Policy == "set_sum" {
 			o.Sum = rapid.IntRange(0, 2).Draw(t, "sumform") > 0
+			if !o.Sum && rapid.IntRange(0, 2).Draw(t, "setzero") == 0 {
+				// "set:0" followed by "sum:" forms: a partial store must keep the set mark of a value that is zero
+				o.Val = Bin("0")
+			}
 		}
 	} else {
 		o.Val = Bin(GenBytes(t))
